@@ -47,7 +47,7 @@ def valueToLiteral (c : PyConv) (tm : TypeMap) (v : PyVal) (t : InType) : Option
     if v.isNullish then some .null
     else match tm.find n with
       | some (.inputObject fields _) =>
-        (match hd : v.asDict with
+        (match hd : v.asMapping with
          | some kvs =>
            if hasUnknownDefined kvs fields then none
            else
@@ -71,7 +71,7 @@ decreasing_by
   · apply Prod.Lex.right; simp
   · apply Prod.Lex.left
     have h1 := dictGetDefined_sizeOf h
-    have h2 := asDict_sizeOf hd
+    have h2 := asMapping_sizeOf hd
     omega
 
 end Gql.Values
